@@ -458,12 +458,34 @@ def history(ctx, seed):
                 if ed is None:
                     continue
                 params, spec2 = ed
-                st, _ = call(o.obj, "set_params", None) if False else ("ok", None)
+                prev_train = o.train
                 try:
                     o.obj.set_params(**params)
                     o.spec = spec2
                     o.train = None  # set_params resets the estimator
                     ctx.stat("set_params_events")
+                    # follow-up: straight away a fit and an output call on data of the SAME shape as
+                    # the object saw before the edit (anything remembered per shape would show now)
+                    same = [d for d in datasets if prev_train is not None and d.shape == prev_train.shape]
+                    if same and o.spec["cls"] != "StatThresholdAnomaliser":
+                        D2 = same[int(rng.integers(len(same)))]
+                        st2, _ = call(o.obj, "fit", D2)
+                        if st2 == "ok":
+                            o.train = D2
+                            twins, _ = build_twins(o, ctx)
+                            op2 = ["predict", "scores_table", "transform"][int(rng.integers(3))]
+                            st3, val3 = call(o.obj, op2, D2)
+                            ctx.stat("set_params_followups")
+                            for tname, t in (twins or []):
+                                tst, tval = call(t, op2, twin_copy(D2))
+                                if st3 != tst or (st3 == "ok" and not same_value(val3, tval)):
+                                    ctx.violation(sub, f"differs-from-{tname}-twin", f"history {seed} step {step}: "
+                                                  f"{short(o.spec)} after set_params({params}) and a fit on data of "
+                                                  f"the shape it had seen before: {op2} differs from the {tname} "
+                                                  f"twin ({str(val3)[:80]!r} vs {str(tval)[:80]!r})",
+                                                  {"seed": seed, "step": step})
+                        else:
+                            restore_after_failure(o)
                 except Exception as ex:
                     ctx.violation(sub, "set_params-exception", f"history {seed} step {step}: "
                                   f"{short(o.spec)}.set_params({params}) raised {type(ex).__name__}: {ex}",
